@@ -453,7 +453,7 @@ pub fn run(r: &Run) {
     r.set_rule(RULE);
     r.assume("the cache is conforming: a full response carries only announcements, it withdraws only what it announced, VRPs are canonical; the incremental exchange is provoked through the client's own soft-reset hook (a client that declines to poll is not judged on that round)");
     r.assume("'idle' = the client's receive counters stopped moving over several scheduler yields on a single-threaded runtime with in-memory I/O (no timers are involved in serve_inner)");
-    r.prop("cache-scripts", r.tier.pick(6_000, 200_000), arb_case, check);
+    r.prop("cache-scripts", r.tier.pick(20_000, 400_000), arb_case, check);
 }
 
 pub fn replay(_sub: &str, case: &Value) -> Result<CheckResult, String> {
